@@ -749,6 +749,92 @@ def peer_child_requests(ck, rng, i):
         cur = nxt
 
 
+RESENT_SECOND = ('narrowed-offer-other-group', 'same-offer-ke-in-the-less-preferred-group', 'identical-copy', 'nothing-common', 'same-offer-other-nonce', 'only-the-second-choice-of-each',
+                 'other-key-length-only', 'first-offer-plus-foreign-transforms')
+
+
+def resent_init_request(ck, rng, i):
+    """An initiator whose first IKE_SA_INIT request was answered in full does not use that answer (lost, or an INVALID_KE_PAYLOAD / COOKIE from somebody else came first)
+    and sends ANOTHER request with the same SPI and Message ID 0 (RFC 7296 2.6 / 2.7 retries keep the SPI): a narrower offer, another KE group, another nonce. The
+    answer to the second request is the reference selection over ITS offer and ITS KE group - never the answer computed for the first one; the handshake then completes
+    with the keys of the second exchange."""
+    kind = RESENT_SECOND[i % len(RESENT_SECOND)]
+    ike_b = {'encr': ['aes256', 'aes128'], 'integ': ['sha256', 'sha1'], 'prf': ['sha256', 'sha1'], 'dh': ['19', '14']}
+    sim, a, b = S.make_pair(ck.seed * 43 + i, ike_b=ike_b, ike_a=ike_b)
+    sim.case = {'family': 'resent-ike-sa-init-request', 'second_request': kind}
+    p = party.RefParty(S.A4, S.B4, rng)
+    T = lambda t, d, k=None: {'type': t, 'id': d, 'keylen': k}
+    full = [T(1, 12, 256), T(1, 12, 128), T(3, 12), T(3, 2), T(2, 5), T(2, 2), T(4, 19), T(4, 14)]
+    first_g = 19 if i % 3 else 14
+    sim.inject(b, S.A4, S.B4, p.init_request(full, first_g))
+    first = [d.data for d in sim.net if d.dst == S.A4]
+    sim.net.clear()
+    if not first:
+        ck.count('resent.first_request_not_answered')
+        return
+    first_full = any(x['type'] == codec.SA for x in codec.decode(first[0], strict_bodies=False)['payloads'])
+    offer2, g2 = {'narrowed-offer-other-group': ([T(1, 12, 128), T(3, 2), T(2, 5), T(4, 14)], 14),
+                  'same-offer-ke-in-the-less-preferred-group': (full, 14), 'identical-copy': (full, first_g),
+                  'nothing-common': ([T(1, 3), T(3, 1), T(2, 1), T(4, 15)], 15), 'same-offer-other-nonce': (full, first_g),
+                  'only-the-second-choice-of-each': ([T(1, 12, 128), T(3, 2), T(2, 2), T(4, 14)], 14),
+                  'other-key-length-only': ([T(1, 12, 128), T(3, 12), T(2, 5), T(4, 19)], 19),
+                  'first-offer-plus-foreign-transforms': ([T(1, 3)] + full + [T(3, 1)], 19)}[kind]
+    if kind == 'same-offer-other-nonce':
+        p.nonce = gen.rb(rng, 32)
+    if kind == 'identical-copy':
+        req2 = p.init_req
+    else:
+        req2 = p.init_request(offer2, g2)
+    sim.inject(b, S.A4, S.B4, req2)
+    second = [d.data for d in sim.net if d.dst == S.A4]
+    sim.net.clear()
+    ck.count('resent.second_requests')
+    ck.seen('resent.kinds', (kind, first_g, first_full))
+    ck.nontrivial(('resent-init', kind, first_g, first_full))
+    my = {'proto': 1, 'transforms': ike_list(ike_b)}
+    want = negotiate.select(my, {'proto': 1, 'transforms': [(t['type'], t['id'], t['keylen']) for t in offer2]})
+    det = {'second_offer': offer2, 'second_ke_group': g2, 'want': want and list(want.values()), 'first_ke_group': first_g, 'first_answer_was_a_full_response': first_full}
+    if not second:
+        ck.violation('second-ike-sa-init-request-with-the-same-spi-not-answered', det, sim.case)
+        return
+    m2 = codec.decode(second[0], strict_bodies=False)
+    sa = next((x for x in m2['payloads'] if x['type'] == codec.SA), None)
+    ke = next((x for x in m2['payloads'] if x['type'] == codec.KE), None)
+    nts = {x['ntype']: x['data'] for x in m2['payloads'] if x['type'] == codec.NOTIFY}
+    if want is None:
+        if sa is not None or 14 not in nts:
+            ck.violation('resent-request:suite-chosen-or-no-refusal-although-nothing-is-common-with-the-second-offer', dict(det, notifies=sorted(nts)), sim.case)
+        else:
+            ck.count('resent.refused_as_the_second_offer_demands')
+        return
+    if want[4][1] != g2:
+        if sa is not None or nts.get(17) != struct.pack('>H', want[4][1]):
+            ck.violation('resent-request:ke-in-another-group-than-the-chosen-one-not-answered-with-invalid-ke-payload', dict(det, notifies=sorted(nts), answered_sa=sa is not None), sim.case)
+        else:
+            ck.count('resent.invalid_ke_as_the_second_request_demands')
+        return
+    if sa is None:
+        ck.violation('resent-request:acceptable-second-request-refused', dict(det, notifies=sorted(nts)), sim.case)
+        return
+    got = [(t['type'], t['id'], t['keylen']) for t in sa['proposals'][0]['transforms']]
+    if sorted(got, key=str) != sorted(want.values(), key=str) or ke is None or ke['group'] != g2:
+        ck.violation('resent-request:answer-is-not-the-selection-over-the-second-offer-and-its-ke-group', dict(det, got=got, answered_ke_group=ke and ke['group']), sim.case)
+        return
+    ck.count('resent.answer_is_the_selection_over_the_second_offer')
+    # the handshake completes with the second exchange
+    if p.take_init_response(second[0]):
+        child = [{'type': 1, 'id': 12, 'keylen': 256}, {'type': 3, 'id': 12, 'keylen': None}, {'type': 5, 'id': 0, 'keylen': None}]
+        a4, b4 = bytes([192, 0, 2, 1]), bytes([192, 0, 2, 2])
+        tsi = [{'tstype': 7, 'ipproto': 6, 'sport': 0, 'eport': 65535, 'saddr': a4, 'eaddr': a4}]
+        tsr = [{'tstype': 7, 'ipproto': 6, 'sport': 23, 'eport': 23, 'saddr': b4, 'eaddr': b4}]
+        sim.inject(b, S.A4, S.B4, p.auth_request(c02.ID_A[0], c02.ID_A[1], 2, p.auth_psk(c02.PSK_A, *c02.ID_A), child, 3, tsi, tsr, True))
+        sim.net.clear()
+        if c02.established(b):
+            ck.count('resent.handshake_completed_with_the_second_exchange')
+        else:
+            ck.violation('resent-request:handshake-on-the-second-exchange-not-completed', dict(det, states=[x.state.name for x in b.ctl.ike_sas]), sim.case)
+
+
 def run(ck):
     rng = ck.rng('c11', ck.shard[0])
     n = 5000
@@ -768,6 +854,9 @@ def run(ck):
     for i in range(48 if not ck.thorough() else 960):
         if ck.mine(i // 6):
             ke_group_aliases(ck, ck.rng('kealias', i), i)
+    for i in range(6 * len(RESENT_SECOND) if not ck.thorough() else 120 * len(RESENT_SECOND)):
+        if ck.mine(i + 3):
+            resent_init_request(ck, ck.rng('resent', i), i)
     for i in range(120 if not ck.thorough() else 6000):
         if ck.mine(i // 4):
             peer_child_requests(ck, ck.rng('peerchild', i), i)
@@ -802,6 +891,8 @@ def verdict(ck):
     ck.floor('CHILD_SA rekey requests of an independent peer whose offer differs from the one that created the SA: selections agreeing', c['peer_child.rekey-child.selection_agrees'], 60)
     ck.floor('... of which the replacement uses another suite than the replaced SA', c['peer_child.rekeys_that_moved_to_another_suite'], 15)
     ck.floor('... refused with NO_PROPOSAL_CHOSEN because nothing was common', c['peer_child.rekey-child.no_proposal_chosen'] + c['peer_child.new-child.no_proposal_chosen'], 15)
+    ck.floor('second IKE_SA_INIT requests with the SPI of an already answered one', c['resent.second_requests'], 40)
+    ck.floor('... whose answer was the selection over the second offer, handshake completed on it', c['resent.handshake_completed_with_the_second_exchange'], 15)
     ck.floor('tampered-response variants', len(ck.sets['tamper.labels']) + c['tamper.invalid_ke'], 34)
     ck.floor('initiator acceptances judged end to end', c['e2e.initiator_acceptance_judged'], 200)
     return None
